@@ -207,7 +207,7 @@ def run_kani(overlay, filters, jobs=None, harness_timeout=None, total_timeout=36
     return parse_output(text), text, wall, rc, " ".join(cmd)
 
 
-PLAYBACK_RE = re.compile(r"/// Test generated for harness `([^`]*)`\s*\n\s*///\s*\n\s*/// Check for `(\w+)`: \"([^\n]*)\"\s*\n\s*#\[test\]\s*\n\s*fn (\w+)\(\) \{(.*?)\n\s*\}\n", re.S)
+PLAYBACK_RE = re.compile(r"/// Test generated for harness `([^`]*)`\s*\n\s*///\s*\n\s*/// Check for `(\w+)`: \"(.*?)\"\s*\n\s*#\[test\]\s*\n\s*fn (\w+)\(\) \{(.*?)\n\s*\}\n", re.S)
 
 
 def counterexample(overlay, harness_full, features=None, timeout=900, returns=False):
@@ -232,7 +232,7 @@ def counterexample(overlay, harness_full, features=None, timeout=900, returns=Fa
         h, kind, desc, fname, body = m.groups()
         if h.split("::")[-1] != short or (kind == "cover") != returns:
             continue
-        vals = re.findall(r"//\s*(-?\d+)\s*\n\s*vec!\[([^\]]*)\]", body)
+        vals = re.findall(r"//\s*(-?\d+)\w*\s*\n\s*vec!\[([^\]]*)\]", body)
         tests.append({"test": fname, "check": desc, "values": [v[0] for v in vals],
                       "bytes": [[int(x) for x in v[1].split(",") if x.strip()] for v in vals],
                       "text": m.group(0)})
@@ -262,7 +262,8 @@ def counterexample(overlay, harness_full, features=None, timeout=900, returns=Fa
         rep["note"] = "could not locate module %s" % mod
         return rep
     brace = srcf.index("{", mpos)
-    inject = "\n".join("    #[cfg(kani)]\n" + t["text"] for t in tests[:4])
+    # (the generated doc comment can span lines without `///`: keep the test item only)
+    inject = "\n".join("    #[cfg(kani)]\n    " + t["text"][t["text"].index("#[test]"):] for t in tests[:4])
     open(target, "w").write(srcf[:brace + 1] + "\n" + inject + srcf[brace + 1:])
     names = [t["test"] for t in tests[:4]]
     pcmd = ["cargo", "kani", "playback", "-Z", "concrete-playback"] + feat + ["--", "kani_concrete_playback_" + short]
